@@ -28,6 +28,10 @@ FAIL_CASES = {
     'unknown-main': {'main': 'import "lib.m" box a { leaf x -> nope; }', 'lib.m': "leaf p; box l { leaf q -> p; }"},
     'unknown-lib': {'main': 'import "lib.m" box a { leaf x -> p; }', 'lib.m': "leaf p; box l { leaf q -> nope; }"},
     'unknown-single': {'main': 'box a { leaf x -> nope; } leaf y;'},
+    # the failure happens while the imports are loaded, another imported model is already under construction
+    'syntax-second-import': {'main': 'import "lib.m" import "bad.m" box a { leaf x -> p; }', 'lib.m': "leaf p; box l { leaf q -> p; }",
+                             'bad.m': "leaf r; box { }"},
+    'missing-second-import': {'main': 'import "lib.m" import "absent.m" box a { leaf x -> p; }', 'lib.m': "leaf p; box l { leaf q -> p; }"},
     'string-unknown': {'main': "box a { leaf x -> nope; } leaf w -> p;", 'lib.m': "leaf p; box l { leaf q -> p; }"},
     'string-syntax': {'main': "box a { leaf x -> p; } leaf % ;", 'lib.m': "leaf p; box l { leaf q -> p; }"},
 }
